@@ -82,6 +82,10 @@ def run(tier):
     evaluator(P, spec, rep)
     identifier_rule(P, rep)
     evaluation_consumers(P, rep, "C05.errors|consumer")
+    # an operand that is a symbol is read as that symbol whatever its name begins with (r16_mask, -zero_off)
+    import layout_match
+    layout_match.use_conditions(P)
+    layout_match.identifier_operands(g, rep, "C05.operand", shapes=("bare", "negated", "in-sum", "directive", "negated-directive"), floor=70)
     return rep
 
 
